@@ -1,7 +1,7 @@
 (* C03 — Inline SQL selects exactly the rows the query means. *)
 Require Import Parser Render PgModel QuerySem SqlSem SqlFrag.
 Require Import SemPattern.
-Require SqlParse SqlSemProof SqlEndToEnd.
+Require SqlParse SqlSemProof SqlEndToEnd SqlSucceeds.
 From Coq Require Import List String ZArith.
 Import ListNotations.
 
@@ -44,6 +44,19 @@ Proof.
   intros o2 r e ts a s T S Ok Nm R. split; [exact (SqlEndToEnd.render_reads o2 e ts a s T Ok Nm R)|exact (SqlSemProof.tr_sem r [] e ts a T S)].
 Qed.
 
+(* ... and the renderer SUCCEEDS on the fragment: with leaves the literal function accepts (SqlSucceeds.leaves_ok: every leaf text
+   valid UTF-8 and NUL-free - utf8.ValidString is an oracle -, field names non-empty and without a double quote) Render returns a
+   text, PostgreSQL reads the expression a from it, and a is true on exactly the rows of the query: the whole of C03 for the
+   integer/string fragment, on the model. *)
+Theorem C03_fragment_renders_and_selects_exactly_the_rows_of_the_query :
+  forall (o2 : oracle2) (r : row) (e : Parser.expr) (ts : list tok) (a : ast),
+  tr e = Some (ts, a) -> side e = true -> text_ok e = true -> names_ok e = true -> SqlSucceeds.leaves_ok o2 e = true ->
+  exists s : string, render o2 e = Ret (s, None) /\ pg_read (str s) = Some a /\ ssem r [] a = qsem r e.
+Proof.
+  intros o2 r e ts a T S Ok Nm Lv. destruct (SqlSucceeds.render_succeeds o2 e ts a T Ok Lv) as [s R]. exists s.
+  split; [exact R|]. split; [exact (SqlEndToEnd.render_reads o2 e ts a s T Ok Nm R)|exact (SqlSemProof.tr_sem r [] e ts a T S)].
+Qed.
+
 (* the premises are met by a tree with every construct of the fragment: a must-clause over a range and a negated wildcard
    pattern, OR a value list with a negative integer AND a prohibited quoted string, OR a comparison *)
 Definition lit (v : value) : Parser.expr := E v Literal VNil 0%Z 0%Z.
@@ -63,3 +76,4 @@ Print Assumptions C03_pattern_translation_preserves_meaning.
 Print Assumptions C03_grammar_reads_the_query_structure.
 Print Assumptions C03_sql_true_on_exactly_the_rows_of_the_query.
 Print Assumptions C03_rendered_sql_is_true_on_exactly_the_rows_of_the_query.
+Print Assumptions C03_fragment_renders_and_selects_exactly_the_rows_of_the_query.
